@@ -15,10 +15,17 @@ Record avpkt := mk_av { av_pt : Z; av_ts : Z; av_payload : bytes }.
 (* what TryUnpackOne reports when it returns true *)
 Record unpack_out := mk_uo { uo_seq : N; uo_rest : list upkt; uo_removed : Z; uo_av : list avpkt }.
 
-(* int64(ts / uint32(clockRate/1000)) *)
-Definition ts_ms (site : N) (clock : Z) (ts : N) : res Z :=
-  let d := w32 (Z.quot clock 1000) in
-  if d =? 0 then Panic site else Ok (Z.of_N (ts / d)).
+(* pinned tree: int64(ts / uint32(clockRate/1000));
+   after the C07 fix (lal 186fc1c): int64(uint64(ts) * 1000 / uint64(clockRate)) --
+   ts < 2^32, so the product does not wrap; uint64 of a negative int is 2^64 - |clock| *)
+Definition w64 (z : Z) : N := Z.to_N (z mod 18446744073709551616)%Z.
+Definition ts_ms (fx : bool) (site : N) (clock : Z) (ts : N) : res Z :=
+  if fx then
+    let d := w64 clock in
+    if d =? 0 then Panic site else Ok (Z.of_N (ts * 1000 / d))
+  else
+    let d := w32 (Z.quot clock 1000) in
+    if d =? 0 then Panic site else Ok (Z.of_N (ts / d)).
 
 (* b[lo:hi] where cap(b) = len b + len tail *)
 Definition slice_cap (site : N) (b tail : bytes) (lo hi : N) : res bytes :=
@@ -28,26 +35,26 @@ Definition slice_cap (site : N) (b tail : bytes) (lo hi : N) : res bytes :=
 
 (* ---------------------------------------------------------------------- *)
 (* raw (G711 / opus) *)
-Definition try_unpack_raw (pt clock : Z) (l : list upkt) : res (option unpack_out) :=
+Definition try_unpack_raw (fx : bool) (pt clock : Z) (l : list upkt) : res (option unpack_out) :=
   match l with
   | [] => Ok None
   | p :: rest =>
       let* (b, _) := up_body p in
-      let* ms := ts_ms s_raw_divide clock (up_ts p) in
+      let* ms := ts_ms fx s_raw_divide clock (up_ts p) in
       Ok (Some (mk_uo (up_seq p) rest 1 [mk_av pt ms b]))
   end.
 
 (* ---------------------------------------------------------------------- *)
 (* AAC *)
-Fixpoint aac_multi (clock pt : Z) (ts : N) (b tail : bytes) (i : Z) (aus : list au) : res (list avpkt) :=
+Fixpoint aac_multi (fx : bool) (clock pt : Z) (ts : N) (b tail : bytes) (i : Z) (aus : list au) : res (list avpkt) :=
   match aus with
   | [] => Ok []
   | a :: t =>
-      let* ms := ts_ms s_aac_divide clock ts in
+      let* ms := ts_ms fx s_aac_divide clock ts in
       if (clock =? 0)%Z then Panic s_aac_divide else
       let extra := Z.of_N (w32 (Z.quot (i * 1024000) clock)) in
       let* pl := slice_cap s_aac_slice b tail (au_pos a) (au_pos a + au_size a) in
-      let* more := aac_multi clock pt ts b tail (i + 1) t in
+      let* more := aac_multi fx clock pt ts b tail (i + 1) t in
       Ok (mk_av pt (ms + extra) pl :: more)
   end.
 
@@ -68,7 +75,7 @@ Fixpoint aac_frag (fx : bool) (clock pt : Z) (total timestamp seq cache : N) (ac
           let cache := u32 (cache + lenN rem) in
           if cache <? total then aac_frag fx clock pt total timestamp (up_seq q) cache (rem :: acc) count rest
           else if cache =? total then
-            let* ms := ts_ms s_aac_divide clock (up_ts q) in
+            let* ms := ts_ms fx s_aac_divide clock (up_ts q) in
             Ok (Some (mk_uo (up_seq q) rest count [mk_av pt ms (concat (rev (rem :: acc)))]))
           else Ok None
       | _ => Ok None
@@ -85,13 +92,13 @@ Definition try_unpack_aac (fx : bool) (pt clock : Z) (l : list upkt) : res (opti
       | [a] =>
           let* rem := slice_from s_aac_slice b (au_pos a) in
           if au_size a <=? lenN rem then
-            let* ms := ts_ms s_aac_divide clock (up_ts p) in
+            let* ms := ts_ms fx s_aac_divide clock (up_ts p) in
             let* pl := slice_cap s_aac_slice b tail (au_pos a) (au_pos a + au_size a) in
             Ok (Some (mk_uo (up_seq p) rest 1 [mk_av pt ms pl]))
           else
-            aac_frag fx clock pt (au_size a) (up_ts p) (up_seq p) (u32 (lenN rem)) [rem] 0 rest
+            aac_frag fx clock pt (au_size a) (up_ts p) (up_seq p) (u32 (lenN rem)) [rem] 1 rest
       | _ =>
-          let* avs := aac_multi clock pt (up_ts p) b tail 0 aus in
+          let* avs := aac_multi fx clock pt (up_ts p) b tail 0 aus in
           Ok (Some (mk_uo (up_seq p) rest 1 avs))
       end
   end.
@@ -105,8 +112,10 @@ Definition pos_fua_end : N := 4.
 Definition pos_stapa : N := 5.
 Definition pos_ap : N := 6.
 
-Definition hevc_single_type (t : N) : bool :=
-  (t <=? 9) || ((16 <=? t) && (t <=? 23)) || ((32 <=? t) && (t <=? 35)) || (t =? 39) || (t =? 40).
+(* C07 fix (lal b865944): every type below 48 is a single NAL unit packet; before: hevc.NaluTypeMapping *)
+Definition hevc_single_type (fx : bool) (t : N) : bool :=
+  if fx then t <? 48
+  else (t <=? 9) || ((16 <=? t) && (t <=? 23)) || ((32 <=? t) && (t <=? 35)) || (t =? 39) || (t =? 40).
 
 (* calcPositionIfNeededAvc: 0 = position left unset *)
 Definition calc_pos_avc (fx : bool) (b : bytes) : res N :=
@@ -127,7 +136,7 @@ Definition calc_pos_hevc (fx : bool) (b : bytes) : res N :=
   if fx && (lenN b <? 1) then Ok 0 else
   let* b0 := idx s_calchevc_index b 0 in
   let outer := (b0 mod 128) / 2 in
-  if hevc_single_type outer then Ok pos_single
+  if hevc_single_type fx outer then Ok pos_single
   else if outer =? 49 then
     if fx && (lenN b <? 3) then Ok 0 else
     let* b2 := idx s_calchevc_index b 2 in
@@ -199,12 +208,12 @@ Definition try_unpack_avchevc (fx : bool) (hevc : bool) (pt clock : Z) (l : list
   | first :: rest =>
       let pos := up_pos first in
       if pos =? pos_single then
-        let* ms := ts_ms s_avchevc_divide clock (up_ts first) in
+        let* ms := ts_ms fx s_avchevc_divide clock (up_ts first) in
         let* (b, _) := up_body first in
         Ok (Some (mk_uo (up_seq first) rest 1 [mk_av pt ms (be_put 4 (u32 (lenN b)) ++ b)]))
       else if (pos =? pos_stapa) || (pos =? pos_ap) then
         let skip := if pos =? pos_stapa then 1 else 2 in
-        let* ms := ts_ms s_avchevc_divide clock (up_ts first) in
+        let* ms := ts_ms fx s_avchevc_divide clock (up_ts first) in
         let* (b, _) := up_body first in
         let* buf := slice_from s_avchevc_slice b skip in
         if negb (stap_valid (S (length buf)) buf) then Ok None else
@@ -214,7 +223,7 @@ Definition try_unpack_avchevc (fx : bool) (hevc : bool) (pt clock : Z) (l : list
         match fua_walk (up_seq first) [] rest with
         | None => Ok None
         | Some (mids, last, rest') =>
-            let* ms := ts_ms s_avchevc_divide clock (up_ts last) in
+            let* ms := ts_ms fx s_avchevc_divide clock (up_ts last) in
             let* (fb, _) := up_body first in
             let* ntype :=
               (if hevc then
@@ -244,7 +253,7 @@ Record unpacker := mk_unp { uk_kind : ukind; uk_pt : Z; uk_clock : Z }.
 Definition try_unpack_one (fx : bool) (u : unpacker) (l : list upkt) : res (option unpack_out) :=
   match uk_kind u with
   | UAac => try_unpack_aac fx (uk_pt u) (uk_clock u) l
-  | URaw => try_unpack_raw (uk_pt u) (uk_clock u) l
+  | URaw => try_unpack_raw fx (uk_pt u) (uk_clock u) l
   | UAvc => try_unpack_avchevc fx false (uk_pt u) (uk_clock u) l
   | UHevc => try_unpack_avchevc fx true (uk_pt u) (uk_clock u) l
   end.
